@@ -348,12 +348,31 @@ class FIXNewOrderSingle:
             }
 
         elif fix_msg_type == FMsg.ORDERCANCELREJECT:  # '9'
+            # a finished order stays finished whatever the reject carries
+            finished = {None: None}
+            # an acknowledged order cannot go back to PENDING_NEW
+            working = {
+                FOrdStatus.CREATED: FIXError,
+                FOrdStatus.ACCEPTED_FOR_BIDDING: FIXError,
+                FOrdStatus.PENDING_NEW: FIXError,
+                None: True,
+            }
             status_transitions = {
+                FOrdStatus.FILLED: finished,
+                FOrdStatus.CANCELED: finished,
+                FOrdStatus.REJECTED: finished,
+                FOrdStatus.EXPIRED: finished,
+                FOrdStatus.NEW: working,
+                FOrdStatus.PARTIALLY_FILLED: working,
+                FOrdStatus.SUSPENDED: working,
+                FOrdStatus.DONE_FOR_DAY: working,
+                FOrdStatus.STOPPED: working,
+                FOrdStatus.CALCULATED: working,
                 None: {
                     FOrdStatus.CREATED: FIXError,
                     FOrdStatus.ACCEPTED_FOR_BIDDING: FIXError,
                     None: True,
-                }
+                },
             }
         elif (
             fix_msg_type == FMsg.ORDERCANCELREQUEST
